@@ -11,7 +11,7 @@ from .. import symjax as sj, solve, gfi
 
 FUNCTIONS = ["elbo_factory", "optimize_vi", "elbo_vi", "mean_field_normal_family", "Expectation.estimate/grad_estimate", "Fn.merge (constraint vs sampled choices)",
              "NormalREPARAM / REINFORCE / MultivariateNormalREPARAM"]
-BOUNDS = {"latent dimension": "1 (2 for the mean-field family)", "iterations": "<= 3", "learning rate": "{1/8, 1}", "families": "reparameterised and score-function normal families; mean_field_normal_family(2)",
+BOUNDS = {"latent dimension": "1 (2 for the mean-field family)", "iterations": "<= 3", "learning rate": "{1/8, 1}", "families": "reparameterised and score-function normal families; mean_field_normal_family(2); flat and hierarchical (nested) latent addresses, constraints overlapping the sampled address at both depths",
           "values": "all parameter values, observations, prior/likelihood scales and noise outcomes"}
 ASSUMPTIONS = ["'lies below log p(x) in expectation otherwise' is Gibbs' inequality (an integral): outside",
                "tightness: scales are exp of symbolic log-scales; the posterior/marginal scale relations are side conditions"]
